@@ -166,6 +166,16 @@ def run_real(c):
         first = {}
         for ch in order:                      # every query once, in the case's order ...
             first[ch] = calls[ch]()
+        if c.get("other"):                    # another splitter of the same class, other horizon, other series, in between
+            try:
+                cv2 = type(cv)(**dict(cv.get_params() if hasattr(cv, "get_params") else {}, fh=[2, 5])) if hasattr(cv, "get_params") else None
+                if cv2 is None:
+                    import copy
+                    cv2 = copy.deepcopy(cv); cv2.fh = [2, 5]
+                list(cv2.split(pd.Series(np.arange(23.0))))
+                cv2.get_cutoffs(pd.Series(np.arange(23.0)))
+            except Exception:
+                pass
         rep = ""
         for ch in order[::-1]:                # ... and once more: a splitter is a description, not a cursor
             again = calls[ch]()
@@ -546,6 +556,9 @@ def gen_cases(tier, rng):
         cases.append({"kind": "cutoff", "n": n, "cutoffs": [n - 1], "fh": [1], "wl": 2, "origin": 0})
         cases.append({"kind": "cutoff", "n": n, "cutoffs": [n - 2], "fh": [2], "wl": 2, "origin": 0})
         cases.append({"kind": "cutoff", "n": n, "cutoffs": [n - 2], "fh": [1], "wl": 0, "origin": 0})
+    for cc in cases:
+        if cc["kind"] in ("win", "single", "cutoff"):
+            cc.setdefault("other", rng.random() < 0.3)  # another splitter object is used in between
     return cases
 
 
